@@ -5,7 +5,8 @@
    listed as open in the evidence and is what the correspondence check samples. *)
 From hls Require Import Base Float Lex Kinds Types Tags Line Keys Media.
 From hls.Generated Require Import Tables.
-From hls.Proofs Require Import Build Parse MediaProps Lexical Assembly MasterOrder Values.
+From hls Require Import Master.
+From hls.Proofs Require Import Build Parse MediaProps Lexical Assembly MasterOrder Values MediaText C03Items ParsedBuilt.
 Open Scope N_scope.
 
 (* L2: the tokenizer returns exactly the rendered (name, value) pairs, whatever the padding
@@ -74,6 +75,27 @@ Theorem C01_integers : forall w n, n < 2 ^ w -> parse_uint w (print_uint n) = So
 Proof. exact parse_print_uint. Qed.
 Check C01_integers : forall w n, n < 2 ^ w -> parse_uint w (print_uint n) = Some n.
 Print Assumptions C01_integers.
+
+(* end to end, for the canonical rendering: every well-formed playlist value with the build() invariants is
+   reported faithfully by the parser from its own text — the same playlist-level values and unknown tags,
+   and per segment the same number, URI, duration/title, byte range, date range, flags and map (keys
+   as a set).  Arbitrary surface syntax: the tokenizer / dispatch / assembly theorems above and C12. *)
+Theorem C01_canonical_text : forall p raws, wf_media p = true -> built_ok p raws ->
+  parse_media (print_media p) = Ok (reread p)
+  /\ mp_target (reread p) = mp_target p /\ mp_mseq (reread p) = mp_mseq p /\ mp_dseq (reread p) = mp_dseq p
+  /\ mp_ptype (reread p) = mp_ptype p /\ mp_iframes (reread p) = mp_iframes p /\ mp_indep (reread p) = mp_indep p
+  /\ mp_start (reread p) = mp_start p /\ mp_endlist (reread p) = mp_endlist p /\ mp_unknown (reread p) = mp_unknown p
+  /\ Forall2 seg_same (mp_segs (reread p)) (mp_segs p).
+Proof.
+  intros p raws Hw Hb. split; [apply (media_text_roundtrip p raws Hw Hb) | apply (reread_same p raws Hb)].
+Qed.
+Check C01_canonical_text : forall p raws, wf_media p = true -> built_ok p raws ->
+  parse_media (print_media p) = Ok (reread p)
+  /\ mp_target (reread p) = mp_target p /\ mp_mseq (reread p) = mp_mseq p /\ mp_dseq (reread p) = mp_dseq p
+  /\ mp_ptype (reread p) = mp_ptype p /\ mp_iframes (reread p) = mp_iframes p /\ mp_indep (reread p) = mp_indep p
+  /\ mp_start (reread p) = mp_start p /\ mp_endlist (reread p) = mp_endlist p /\ mp_unknown (reread p) = mp_unknown p
+  /\ Forall2 seg_same (mp_segs (reread p)) (mp_segs p).
+Print Assumptions C01_canonical_text.
 
 Example C01_example :
   attr_pairs (lit " URI = ""a,b=c"" ,IV=0x12,  X=""q""") = [(lit "URI", lit """a,b=c"""); (lit "IV", lit "0x12"); (lit "X", lit """q""")]
